@@ -1,0 +1,12 @@
+//go:build verif
+
+package eventloop
+
+// VerifHook, when set, is called at every synchronisation point of the loop (see verifPoint calls in eventloop.go).
+var VerifHook func(loop *EventLoop, name string, objs ...interface{})
+
+func verifPoint(loop *EventLoop, name string, objs ...interface{}) {
+	if h := VerifHook; h != nil {
+		h(loop, name, objs...)
+	}
+}
